@@ -102,6 +102,8 @@ class CEmitter:
             return "DiplomatStrings16View" if t[1] == "u16" else "DiplomatStringsView"
         if k == "cb":
             return "DiplomatCallback_%s_%s" % (m.abi_name, pname)
+        if k == "tr":
+            return "DiplomatTraitStruct_" + t[1]
         if k == "write":
             return "DiplomatWrite*"
         if k == "ordering":
@@ -212,6 +214,8 @@ class CEmitter:
             return "(%s){ .data = %s, .len = %d }" % (cty, a, len(strs))
         if k == "cb":
             return self.callback(t, v, pre, post, m, pname)
+        if k == "tr":
+            return self.trait_object(t, v, pre, post)
         if k == "write":
             w = self.fresh("w")
             if v["mode"] == "buffer":
@@ -258,6 +262,49 @@ class CEmitter:
             return "(%s){ .data = %s, .run_callback = cb_run_%d, .destructor = cb_drop_%d }" % (cty, d, n, n)
         post.append(("free", d))
         return "(%s){ .data = %s, .run_callback = cb_run_%d, .destructor = NULL }" % (cty, d, n)
+
+    def trait_object(self, t, v, pre, post):
+        """A foreign implementation of the trait: one vtable function per method, all sharing the call counter behind `data`."""
+        n = v["cb"]
+        null_data = bool(v.get("null_data"))
+        if null_data:
+            self.decls.append("static int tr_cnt_%d = 0;" % n)
+        fns = []
+        for mi, (mname, mm, margs, mret) in enumerate(t[2]):
+            ret_c = "void" if mret == ("unit",) else self.c_ty(mret)
+            params = ["void* data"] + ["%s a%d" % (self.c_ty(a), i) for i, a in enumerate(margs)]
+            body = []
+            if null_data:
+                body.append("if (data != NULL) { printf(\"CB %d got a data pointer it never passed\\n\"); abort(); } int j = tr_cnt_%d++;" % (n, n))
+            else:
+                body.append("int* cnt = (int*)data; int j = (*cnt)++;")
+            body.append("printf(\"CB %d#%%d %s\", j);" % (n, mname))
+            for i, a in enumerate(margs):
+                body.append("printf(\" \");")
+                body += self.print_stmts("a%d" % i, a)
+            body.append("printf(\"\\n\");")
+            if mret != ("unit",):
+                body.append("switch (j) {")
+                for j, (imi, _, cret) in enumerate(v["inv"]):
+                    if imi == mi:
+                        body.append("  case %d: return %s;" % (j, self.arg(mret, cret, [], [])))
+                body.append("  default: break; }")
+                body.append("printf(\"CB %d %s called out of script\\n\"); abort();" % (n, mname))
+            fn = "tr_%d_%s" % (n, mname)
+            self.decls.append("static %s %s(%s) {\n  %s\n}" % (ret_c, fn, ", ".join(params), "\n  ".join(body)))
+            fns.append(".run_%s_callback = %s" % (mname, fn))
+        self.decls.append("static void tr_drop_%d(const void* data) { printf(\"CBDROP %d\\n\"); free((void*)data); }" % (n, n))
+        cty = "DiplomatTraitStruct_" + t[1]
+        if null_data:
+            d = "NULL"
+        else:
+            d = self.fresh("trd")
+            pre.append("int* %s = calloc(1, sizeof(int));" % d)
+            if not v["destructor"]:
+                post.append(("free", d))
+        # the header names the first member (Rust's `data: *const c_void`) `destructor` and types it as a function pointer
+        return "(%s){ .destructor = (void (*)(const void*))%s, .vtable = { .destructor = %s, .SIZE = sizeof(int), .ALIGNMENT = _Alignof(int), %s } }" % (
+            cty, d, ("tr_drop_%d" % n) if v["destructor"] else "NULL", ", ".join(fns))
 
     # ---- printing
     def print_stmts(self, e, t, adopt=None, retv=None):
